@@ -64,6 +64,44 @@ def r_initclass(root):
         ob("C25", "C25.d", MM, W, "qualified name of rule Sub in namespace %r" % (nsname,), okq)
         if not okq: out.append(Finding("C25", "C25.d", MM, W, "namespace %r" % (nsname,), "a class Sub initialised while the namespace %r is current %s; documented: %r (namespace + '.' + name, the bare name in the base namespace) and an entry in that namespace" % (nsname, ("gets the qualified name %r%s" % (cls.own.get("_tx_fqn"), "" if ns.get("Sub") is cls else " and no entry in the namespace")) if err is None else err, want)))
     return inst, out
+def r_modelfromfile(root):
+    """C27.g  TextXMetaModel.model_from_file decided by evaluation with recording stand-ins: the parameters the caller gives
+    are checked against the declarations as given and reach the model (ModelParams) as given - same names, same values
+    (a relative project_root stays relative, None stays None) -, before the file is loaded with the caller's file name,
+    encoding and debug flag; an undeclared parameter stops the load before anything is read."""
+    from sa.exprs import HS
+    out = []; inst = 0
+    t = load(root, MM); fn = find(t, "TextXMetaModel.model_from_file")
+    ps = [a.arg for a in fn.args.args]
+    if ps[:2] != ["self", "file_name"] or not fn.args.kwarg: raise AnalysisError("model_from_file: parameters %s" % ps)
+    fns = {k: v for k, v in helper_functions(root, MM, "TextXMetaModel.model_from_file").items() if k not in ("model_from_file", "internal_model_from_file", "model_from_str")}
+    def run(kwargs, reject=False):
+        ev = []
+        def check(source, **kw):
+            ev.append(("check", source, dict(kw)))
+            if reject:
+                r_ = pyeval.Raised("TextXError"); r_.bases = ["TextXError", "Exception"]; raise r_
+        def internal(file_name, encoding="utf-8", debug=None, pre_ref_resolution_callback=None, is_main_model=True, model_str=None, model_params=None, **k):
+            ev.append(("load", file_name, encoding, debug, model_params, is_main_model)); return HS({".kind": "model"})
+        me = HS({".kind": "metamodel", ".model_param_defs": HS({".check_params": pyeval.PyFn(check)}), ".internal_model_from_file": pyeval.PyFn(internal), ".debug": False})
+        env = {"__functions__": fns, "__module__": t, "self": me, "file_name": "models/a.mdl", "encoding": "latin-1", "debug": "DBG", fn.args.kwarg.arg: dict(kwargs),
+               "ModelParams": pyeval.PyFn(lambda d=None, **k: HS({".kind": "ModelParams", ".given": dict(d if d is not None else k)})), "abspath": pyeval.PyFn(lambda p_: "/abs/" + p_), "os": pyeval.TRUSTED["os"]}
+        try: return "ret", pyeval.run_block(fn.body, env), ev
+        except pyeval.Raised as r_: return "raise", r_.cls, ev
+        except pyeval.Unsupported as u_: raise AnalysisError("model_from_file: outside the evaluated subset: %s" % u_)
+    W = "TextXMetaModel.model_from_file"
+    def rep(what, ok, msg):
+        nonlocal inst
+        inst += 1; ob("C27", "C27.g", MM, W, what, ok)
+        if not ok: out.append(Finding("C27", "C27.g", MM, W, what, msg))
+    for what, kw in (("a relative project_root, None, 0 and a mixed-case name", {"project_root": "../proj/", "limit": None, "n": 0, "outDir": "o"}), ("no parameters", {})):
+        k, v, ev = run(kw)
+        loads = [e for e in ev if e[0] == "load"]; checks = [e for e in ev if e[0] == "check"]
+        ok = k == "ret" and len(loads) == 1 and len(checks) == 1 and checks[0][2] == kw and ev.index(checks[0]) < ev.index(loads[0]) and isinstance(loads[0][4], dict) and loads[0][4].get(".given") == kw and loads[0][1:4] == ("models/a.mdl", "latin-1", "DBG")
+        rep(what, ok, "model_from_file('models/a.mdl', encoding='latin-1', debug='DBG', %s) %s, checking %s and loading with %s; documented: the parameters are checked and handed to the model exactly as given (same names, same values), the file is loaded with the caller's file name, encoding and debug flag" % (", ".join("%s=%r" % x for x in kw.items()), "returns" if k == "ret" else "raises " + str(v), [c[2] for c in checks], [(l[1], l[2], l[3], l[4].get(".given") if isinstance(l[4], dict) else l[4]) for l in loads]))
+    k, v, ev = run({"undeclared": 1}, reject=True)
+    rep("an undeclared parameter stops the load", k == "raise" and v == "TextXError" and not [e for e in ev if e[0] == "load"], "with a parameter that check_params rejects model_from_file %s and %s; documented: the TextXError propagates and nothing is loaded" % ("raises " + str(v) if k == "raise" else "returns", "loads the file" if [e for e in ev if e[0] == "load"] else "loads nothing"))
+    return inst, out
 def r_initobj(root):
     out = []; inst = 0
     t = load(root, MM); io = find(t, "TextXMetaModel._init_obj_attrs")
